@@ -1120,7 +1120,7 @@ class Interp:
             if attr == 'value':
                 return self.from_idx(obj.t)
             raise Unsupported('enum attribute ' + attr)
-        if isinstance(obj, (VList, VSeq, VInt, VKwargs, VQueue, VTable, VStr, VSymStr, VConst)):
+        if isinstance(obj, (VList, VSeq, VInt, VKwargs, VQueue, VTable, VStr, VSymStr, VConst)) or type(obj).__name__ == 'VNp':
             return VBuiltin(('m', obj, attr))
         if isinstance(obj, VBuiltin) and obj.name == 'int' and attr == 'from_bytes':
             return VBuiltin('int.from_bytes')
@@ -1669,6 +1669,9 @@ class Interp:
             raise EngineError('attribute %s.%s has no declared shape (line %s)' % (obj.cls, attr, st.cur_line))
         v = self.coerce_store(T_, v)
         field_store(st, 'a:%s.%s' % (obj.cls, attr), T_, obj.t, v)
+        if isinstance(v, VList):
+            # ghost: the object a list was last stored into (ownership, used by class invariants)
+            st.hset('G:own', z3.IntSort(), v.t, obj.t)
 
     def setitem(self, obj, key, v):
         st = self.st
